@@ -22,8 +22,9 @@ func init() {
 
 type xpeerModel struct {
 	*soloWorld
-	depth int
-	redos int
+	depth    int
+	redos    int
+	signaled map[int]bool // NoSignal configurations: remote candidate j has been signalled by an event
 }
 
 func (m *xpeerModel) Enabled() []string {
@@ -50,6 +51,13 @@ func (m *xpeerModel) Enabled() []string {
 	}
 	if m.redos < 1 && len(m.peerMsgs) > 0 {
 		evs = append(evs, "redo")
+	}
+	if m.cfg.NoSignal { // the peer's addresses are first learnt from its checks (peer-reflexive) and signalled later
+		for j := range m.remotes {
+			if !m.signaled[j] {
+				evs = append(evs, fmt.Sprintf("signal:%d", j))
+			}
+		}
 	}
 
 	return evs
@@ -113,6 +121,13 @@ func (m *xpeerModel) Apply(ev string) {
 			}
 		}
 		m.send(to, from, m.peerResponse(d.data, stun.ClassSuccessResponse, "", d.src))
+	case "signal":
+		j, _ := strconv.Atoi(f[1])
+		if m.signaled == nil {
+			m.signaled = map[int]bool{}
+		}
+		m.signaled[j] = true
+		m.signalRemote(j)
 	case "redo":
 		m.redos++
 		last := m.peerMsgs[len(m.peerMsgs)-1]
@@ -139,7 +154,7 @@ func (m *xpeerModel) Key() (string, []int) {
 		}
 	}
 
-	return m.canon() + " ledger=" + m.led.summary() + " sel=" + m.led.lastSel + last, []int{m.depth, m.redos}
+	return m.canon() + " ledger=" + m.led.summary() + " sel=" + m.led.lastSel + last + fmt.Sprint(" signalled=", len(m.signaled)), []int{m.depth, m.redos}
 }
 
 func (m *xpeerModel) Problems() []vtProblem {
@@ -178,6 +193,8 @@ func checkC03(c *runCtx) {
 		{"X full controlling vs scripted peer", "xpeer", soloCfg{Role: "controlling", Locals: 2, Remotes: 2, PrioL: prL, PrioR: prR, Depth: depth}},
 		{"X full controlled vs scripted peer", "xpeer", soloCfg{Role: "controlled", Locals: 2, Remotes: 2, PrioL: prL, PrioR: prR, Depth: depth}},
 		{"X full controlled vs scripted peer that also uses nomination values", "xpeer", soloCfg{Role: "controlled", Locals: 1, Remotes: 2, PrioL: prL, PrioR: prR, Depth: depth, Extra: "nomination-values"}},
+		{"X full controlled, the peer's address is learnt from its checks first and signalled later", "xpeer", soloCfg{Role: "controlled", Locals: 2, Remotes: 1, PrioL: prL, PrioR: prR, Depth: depth, NoSignal: true}},
+		{"X full controlling, the peer's address is learnt from its checks first and signalled later", "xpeer", soloCfg{Role: "controlling", Locals: 2, Remotes: 1, PrioL: prL, PrioR: prR, Depth: depth, NoSignal: true}},
 		{"X lite controlled vs scripted peer", "xpeer", soloCfg{Role: "controlled", Lite: true, Locals: 2, Remotes: 2, PrioL: prL, PrioR: prR, Depth: depth}},
 		{"X lite controlled + use-candidate priority check vs scripted peer", "xpeer", soloCfg{Role: "controlled", Lite: true, UCPrio: true, Locals: 2, Remotes: 2, PrioL: prL, PrioR: prR, Depth: depth}},
 		{"X lite controlling vs scripted peer", "xpeer", soloCfg{Role: "controlling", Lite: true, Locals: 2, Remotes: 2, PrioL: prL, PrioR: prR, Depth: depth - 1}},
